@@ -568,6 +568,48 @@ def r7_eval_all(run: Run, rt):
                     run.bad('C14.R7', f['construct'], f['sub'], f['message'], loc=f['loc'])
 
 
+def r11_index_eval(run: Run, rt):
+    """INDEX decided by abstract evaluation (engine F) on a small area: the addressed cell and nothing else decides the result --
+    an error value, a blank or a text elsewhere in the area is not looked at --, a row or column out of the area is #REF!"""
+    from ..finite import evaluator_for, AV, const_av, Unknown, AbsRaise
+    BLANK = AV('blank', sign='zero')
+
+    def lst(x):
+        return AV('list', items=tuple(lst(y) for y in x)) if isinstance(x, list) else (x if isinstance(x, AV) else const_av(x))
+    grid = [[11, 12, 13], ['#N/A', 22, BLANK], [31, '#DIV/0!', 'text']]
+    column = [[1], ['#N/A'], [3]]
+    row = [[5, '#VALUE!', 7]]
+    cases = [(grid, 1, 1, 11, 'first cell'), (grid, 1, 3, 13, 'last column of the first row'), (grid, 3, 1, 31, 'first column of the last row'),
+             (grid, 2, 2, 22, 'a cell beside error values'), (grid, 3, 3, 'text', 'last cell'), (grid, 2, 1, '#N/A', 'an error value that is addressed'),
+             (grid, 4, 1, '#REF!', 'row beyond the area'), (grid, 1, 4, '#REF!', 'column beyond the area'),
+             (column, 1, None, 1, 'column area, first'), (column, 3, None, 3, 'column area, a cell below an error value'),
+             (column, 3, 1, 3, 'column area with a column number'), (row, 3, None, 7, 'row area addressed by one number'),
+             (row, 1, 3, 7, 'row area, a cell after an error value'), (row, 1, 1, 5, 'row area, first')]
+    for cp in rt.copies():
+        fn = cp.members.get('_index')
+        if fn is None:
+            run.bad('C14.R11', f'_index[{cp.label}]', 'missing', 'helper _index is missing', loc=cp.path)
+            continue
+        for area, r, c, want, what in cases:
+            ev = evaluator_for(cp, max_depth=8)
+            construct = f'_index[{cp.label}]/{what}'
+            try:
+                res = ev.call_method('_index', [lst(area), const_av(r), const_av(c), const_av(1)])
+                got = res.val if res.val is not None and not isinstance(res.val, tuple) else ('blank' if res.kind == 'blank' else repr(res))
+            except Unknown as u:
+                raise AnalysisError('C14.R11', f'{construct}: the abstraction cannot follow the helper ({u})')
+            except AbsRaise as e:
+                got = f'raises {e.exc}'
+            run.check(got == want and type(got) is type(want), 'C14.R11', construct, 'index-cell',
+                      f'INDEX(area, {r}, {c}) on the area {_show_area(area)} ({what}) gives {got!r}; the addressed cell is {want!r} and '
+                      f'no other cell of the area has a say', fact=f'-> {got!r}', loc=cp.loc(fn))
+
+
+def _show_area(a):
+    from ..finite import AV
+    return '[' + ', '.join(_show_area(x) if isinstance(x, list) else ('blank' if isinstance(x, AV) else repr(x)) for x in a) + ']'
+
+
 def r10(run: Run, rt):
     """candidacy of a row: whether a key takes part in the scan may depend on blank / text / number, never on int versus float --
     2 and 2.0 are the same Excel number.  The helpers are evaluated abstractly (engine F) on a one-row area."""
@@ -629,6 +671,9 @@ def run(run: Run):
     from .common import borrow as _b2
     run.rule('C14.R9', 'the area a lookup scans is the rectangle between the written corners, row-major (shared with C02.R1/R2/R4)')
     _b2(run, 'C14.R9', _c02.r1, src, g)
+    run.rule('C14.R11', 'INDEX: the addressed cell decides, other cells of the area have no say; outside the area is #REF!')
+    run.guard('C14.R11', r11_index_eval, run, rt)
+    run.floor('C14.R11', 20)
     _b2(run, 'C14.R9', _c02.r2, src)
     _b2(run, 'C14.R9', _c02.r4_r5, src)
     run.floor('C14.R9', 30)
